@@ -223,10 +223,14 @@ def u_animate(ctx):
 # =====================================================================================================
 # Renderable.draw
 # =====================================================================================================
-def draw_unit(animated_case):
-    @unit(("C06", "C07", "C10", "C13"), f"_renderable:Renderable.draw[{'animation' if animated_case else 'still'}]")
+def draw_unit(animated_case, still_of_animated=False):
+    """still_of_animated: an animated renderable drawn with animate=False - by the documented rule a non-animation (the current frame
+    only; size validation and scrolling as for a still image)"""
+    tag = "still-frame-of-an-animated-renderable" if still_of_animated else ("animation" if animated_case else "still")
+
+    @unit(("C06", "C07", "C10", "C13"), f"_renderable:Renderable.draw[{tag}]")
     def u(ctx, animated_case=animated_case):
-        eng = ctx.engine(f"C06/draw[{'animation' if animated_case else 'still'}]", "C06")
+        eng = ctx.engine(f"C06/draw[{tag}]", "C06")
         eng.default_replay = {"C06": "C06.draw", "C07": "C07.draw_faults", "C10": "C10.faults", "C13": "C07.draw_faults"}
         st = State()
         ctlseq_world(ctx, eng)
@@ -245,9 +249,11 @@ def draw_unit(animated_case):
         st.ghost["isatty"] = isatty
         eng.classes["MyRenderable"] = ("Renderable",)
         animate, check_size, allow_scroll, hide_cursor, echo_input = z3.Bools("animate check_size allow_scroll hide_cursor echo_input")
-        self_ = st.new("MyRenderable", {"animated": animated_case})
+        self_ = st.new("MyRenderable", {"animated": animated_case or still_of_animated})
         if animated_case:
             st.pc.append(animate)
+        if still_of_animated:
+            st.pc.append(z3.Not(animate))
         animation = animated_case   # self.animated and animate
         render_data = st.new("RenderData", {"finalized": False, "fin_calls": 0})
         real_args = Opaque("real_render_args")
@@ -373,6 +379,7 @@ def draw_unit(animated_case):
 
 for _a in (False, True):
     draw_unit(_a)
+draw_unit(False, still_of_animated=True)
 
 
 # =====================================================================================================
